@@ -12,7 +12,8 @@ import hast
 import svm
 
 PROPERTY = 'C03'
-RULE = ('Hypothesis-generated accepted programs of every flavour mix (ordinary/you/defeat functions, all control flow, '
+RULE = ('Hypothesis-generated accepted programs (composite generator, and histories of try blocks built by the C02 state machine '
+        'rules) of every flavour mix (ordinary/you/defeat functions, all control flow, '
         'try/undo/stop, preempt, ??, recursion, terminal calls, runtime faults), argv, word sizes {2,3,4,8}; checked '
         'build always, unchecked build when the checked run raised no fault flag. Oracle: the VM outcome must be a '
         'non-halting end state (win loop / error loop / state cycle); a halt with an empty choice stack is the '
@@ -27,7 +28,7 @@ FAULT_FLAGS = {'stack_overflow', 'division_by_zero', 'out_of_bounds', 'nonlocal_
 
 
 def shards(tier):
-    return list(range(16))
+    return list(range(12)) + [('machine', k) for k in range(4)]
 
 
 def has_defeat_context(prog):
@@ -75,6 +76,12 @@ def check_case(stats, case):
 
 def run_shard(k, seed, tier):
     stats = Stats()
+    if isinstance(k, tuple):
+        from props.c02_machine import run_machine
+        run_machine(derive_seed(seed, 'C03', 'machine', k[1]), 120 if tier == 'quick' else 2000, stats, steps=8,
+                    shrink=(tier == 'thorough'), mode='halt')
+        stats.sample({'kind': 'state machine (histories of try blocks)', 'oracle': 'no committed halt'})
+        return stats
     n = 500 if tier == 'quick' else 8000
     feats = ALL_FEATURES if k % 2 else ALL_FEATURES - {'faults', 'bigvals', 'terminal'}
     strat = programs(features=feats, size=dict(main_stmts=12, funcs=5))
@@ -92,6 +99,10 @@ def run_shard(k, seed, tier):
 
 
 def replay(case):
+    if case.get('kind') == 'machine':
+        from harness.execute import execute
+        r = execute(case['source'], [str(x) for x in case['argv']], ws=case['ws'], unchecked=case.get('unchecked', False))
+        return None if r.outcome == svm.FOREVER else 'machine ended %s' % r.outcome
     prog, vals, ws = case_from_json(case)
     try:
         r = check_case(Stats(), (prog, vals, ws))
